@@ -135,7 +135,10 @@ def gen_history(seed, idx, tier, only_step_faults=False):
     fresh = gen.rng(seed, "c09", idx, "fresh")
     backdate = r.random() < 0.05
 
+    snapshots = []  # project states as of earlier invocations, for "revert"
+
     def invoke(label, plan):
+        snapshots.append((dict(p.sources), dict(p.cps), dict(p.opts), p.fmt, p.delivery, p.glob))
         cops, argv = p.config_ops_and_argv()
         ops.extend(cops)
         op = {"op": "invoke", "cwd": ".", "argv": argv, "build_dir": "build", "label": label,
@@ -145,6 +148,8 @@ def gen_history(seed, idx, tier, only_step_faults=False):
 
     def user_op():
         choices = ["add", "modify", "modify", "remove", "rename", "option", "option", "delivery", "format"]
+        if len(snapshots) >= 1 and r.random() < 0.5:
+            choices += ["revert", "revert"]
         if backdate:
             choices += ["rename_onto", "copy_onto"] * 3
         k = r.choice(choices)
@@ -166,6 +171,19 @@ def gen_history(seed, idx, tier, only_step_faults=False):
                 p.sources[path], p.cps[path] = new[1], new[2]
             ops.append({"op": "write", "path": path, "content": p.sources[path]})
             return "add"
+        if k == "revert":
+            # put the project back to what an earlier invocation saw (undo of edits; fresh mtimes, as an editor or VCS checkout gives)
+            snap = r.choice(snapshots)
+            if (snap[0], snap[2], snap[3]) == (p.sources, p.opts, p.fmt):
+                return None
+            for path in sorted(set(p.sources) - set(snap[0])):
+                ops.append({"op": "remove", "path": path})
+                p.removed.append(path)
+            for path, c in sorted(snap[0].items()):
+                if p.sources.get(path) != c:
+                    ops.append({"op": "write", "path": path, "content": c})
+            p.sources, p.cps, p.opts, p.fmt, p.delivery, p.glob = dict(snap[0]), dict(snap[1]), dict(snap[2]), snap[3], snap[4], snap[5]
+            return "revert"
         if k == "modify":
             s = r.choice(srcs)
             c = gen.content(r, small=p.fmt in gen.BITMAP)
@@ -408,9 +426,14 @@ def judge(case, results):
         out.append({"class": "discard", "detail": {"tail": (ref.get("steps_tail") or ref.get("driver_tail") or "")[-500:]}})
         return out
     stale = [a for n in final.get("ninja", []) for a in n.get("anomalies", []) if a["k"] == "stale.clean_but_changed"]
-    causes = sorted({"leaf-input-backdated" if (a["leaf"] and a["backdated"] and a["declared"]) else
-                     ("undeclared-input" if not a["declared"] else "other") for a in stale})
-    cause = causes[0] if len(causes) == 1 else ("none" if not causes else "mixed")
+    trusted = [a for n in final.get("ninja", []) for a in n.get("anomalies", []) if a["k"] == "stale.failed_output_trusted"]
+    trusted_edges = {a["edge"] for a in trusted}
+    causes = {"leaf-input-backdated" if (a["leaf"] and a["backdated"] and a["declared"]) else
+              ("undeclared-input" if not a["declared"] else "other") for a in stale if a["edge"] not in trusted_edges}
+    if trusted:
+        causes.add("failed-edge-output-trusted")
+    causes = sorted(causes)
+    cause = causes[0] if len(causes) == 1 else ("none" if not causes else "mixed:" + "+".join(causes))
     if (final["rc"] == 0) != (ref["rc"] == 0):
         out.append({"class": "convergence.exit-status", "detail": {"final_rc": final["rc"], "ref_rc": ref["rc"], "cause": cause,
                                                                    "error": [n.get("error") for n in final.get("ninja", [])],
@@ -421,7 +444,8 @@ def judge(case, results):
         out.append({"class": "convergence.font-differs", "detail": {
             "font": font, "final": fa, "ref": fb, "cause": cause,
             "first_diverging_file": _first_divergence(final["listing"], ref["listing"]),
-            "stale": [{k: a[k] for k in ("edge", "path", "leaf", "declared", "backdated")} for a in stale][:4]}})
+            "stale": [{k: a[k] for k in ("edge", "path", "leaf", "declared", "backdated")} for a in stale][:4],
+            "trusted_failed_outputs": sorted(trusted_edges)[:4]}})
     return out
 
 
